@@ -55,6 +55,29 @@ type keySharePrivateKeys struct {
 	ecdhe      *ecdh.PrivateKey
 	mlkem      *mlkem.DecapsulationKey768
 	mlkemEcdhe *ecdh.PrivateKey // [uTLS] seperate ecdhe key for pq keyshare in line with Chrome, instead of reusing ecdhe key like stdlib
+	// [uTLS] keys of the further classical key shares of a ClientHello that
+	// sends more than one (Firefox: X25519 and P-256); ecdhe is the first.
+	extraEcdhe []*ecdh.PrivateKey
+}
+
+// [uTLS] ecdheKeyFor returns the ECDHE private key whose public half was sent
+// in the key share for group: the X25519 key of the hybrid share, or the key of
+// the classical share on the curve of group. It falls back to ks.ecdhe.
+func (ks *keySharePrivateKeys) ecdheKeyFor(group CurveID) *ecdh.PrivateKey {
+	if group == X25519MLKEM768 || group == X25519Kyber768Draft00 {
+		if ks.mlkemEcdhe != nil {
+			return ks.mlkemEcdhe
+		}
+		return ks.ecdhe
+	}
+	if curve, ok := curveForCurveID(group); ok && ks.ecdhe != nil && ks.ecdhe.Curve() != curve {
+		for _, key := range ks.extraEcdhe {
+			if key != nil && key.Curve() == curve {
+				return key
+			}
+		}
+	}
+	return ks.ecdhe
 }
 
 const x25519PublicKeySize = 32
